@@ -686,11 +686,58 @@ fn build() -> i32 {
     0
 }
 
+/// Direct use of the manifest writer: stdin lines {"name","bin","serde","tokio","axum","crates":[[name, spec|null]..],"out"}.
+/// `null` spec = add_rust_crate (table lookup, may be refused), otherwise add_rust_crate_with_version.
+fn gen() -> i32 {
+    let stdin = std::io::stdin();
+    for line in stdin.lock().lines() {
+        let Ok(line) = line else { break };
+        if line.trim().is_empty() {
+            continue;
+        }
+        let v: Value = serde_json::from_str(&line).unwrap_or(Value::Null);
+        let out = v["out"].as_str().unwrap_or("").to_string();
+        let _ = std::fs::remove_dir_all(&out);
+        let r = catch(|| {
+            let mut g = incan::ProjectGenerator::new(&out, v["name"].as_str().unwrap_or(""), v["bin"].as_bool().unwrap_or(true));
+            g.set_needs_serde(v["serde"].as_bool().unwrap_or(false));
+            g.set_needs_tokio(v["tokio"].as_bool().unwrap_or(false));
+            g.set_needs_axum(v["axum"].as_bool().unwrap_or(false));
+            let mut refused: Vec<String> = vec![];
+            for c in v["crates"].as_array().cloned().unwrap_or_default() {
+                let name = c[0].as_str().unwrap_or("").to_string();
+                match c[1].as_str() {
+                    Some(spec) => g.add_rust_crate_with_version(&name, spec),
+                    None => {
+                        if g.add_rust_crate(&name).is_err() {
+                            refused.push(name);
+                        }
+                    }
+                }
+            }
+            let ok = g.generate("").is_ok();
+            (ok, refused)
+        });
+        let manifest = std::fs::read_to_string(Path::new(&out).join("Cargo.toml")).ok();
+        let files: Vec<String> = {
+            let mut fs = vec![];
+            rs_files(&Path::new(&out).join("src"), &mut fs);
+            fs.iter().map(|f| f.strip_prefix(&out).unwrap_or(f).to_string_lossy().to_string()).collect()
+        };
+        match r {
+            Ok((ok, refused)) => println!("@@C15 {}", json!({"ok": ok, "refused": refused, "manifest": manifest, "files": files})),
+            Err(p) => println!("@@C15 {}", json!({"ok": false, "err": format!("panic: {}", p), "manifest": manifest, "files": files})),
+        }
+    }
+    0
+}
+
 pub fn run(args: &[String]) {
     let code = match args.first().map(|s| s.as_str()).unwrap_or("") {
         "table" => table(args.get(1).map(|s| s.as_str()).unwrap_or("/repo")),
         "scan" => scan(),
         "build" => build(),
+        "gen" => gen(),
         other => {
             eprintln!("c15: unknown mode {:?} (table|scan|build)", other);
             2
